@@ -537,6 +537,28 @@ pub fn rec_wire_build(args: &Args) {
             ev_to_bytes(&mut out, &p, Some(None));
         }
     }
+    // large messages through the unlimited entry point, and what the parser makes of the bytes
+    for p in large_messages(&mut r).iter() {
+        ev_to_bytes(&mut out, p, Some(None));
+    }
+    // set_option / add_option lists with empty values between non-empty ones
+    for _ in 0..(if thorough { 200 } else { 30 }) {
+        out.ev(json!({"op": "reset"}));
+        let mut p = Packet::new();
+        let num = *r.pick(&[0u16, 8, 11, 15, 300]);
+        let mut vs: Vec<Value> = vec![];
+        for i in 0..r.range(2, 5) {
+            if (i + r.below(2)) % 2 == 0 {
+                vs.push(json!([]));
+            } else {
+                let n = 1 + r.below(3) as usize;
+                vs.push(jbytes(&r.bytes(n)));
+            }
+        }
+        ev_call(&mut out, &mut p, jcall("set_option", json!({"num": num, "vs": vs})));
+        ev_call(&mut out, &mut p, jcall("add_option", json!({"num": num, "v": []})));
+        ev_call(&mut out, &mut p, jcall("add_option", json!({"num": num + 1, "v": [7]})));
+    }
     // the header edited / replaced behind set_token's back, then set_token again (same and different values)
     for k in 0..(if thorough { 400 } else { 60 }) {
         out.ev(json!({"op": "reset"}));
@@ -722,6 +744,35 @@ fn sized_message(r: &mut Rng, target: usize, by_options: bool) -> Option<Packet>
     Some(p)
 }
 
+/// messages of sizes ordinary use never reaches: hundreds of values under one number, hundreds of numbers,
+/// values of 65535 / 65536 / 65549 / the longest encodable 65535 + 269 bytes and one byte more (refused),
+/// a payload above 64 KiB, an 8-byte token before an option whose delta needs two extension bytes
+fn large_messages(r: &mut Rng) -> Vec<Packet> {
+    let mut v = vec![];
+    let mut many_vals = Packet::new();
+    for i in 0..300usize {
+        many_vals.add_option(CoapOption::UriQuery, vec![(i % 251) as u8; i % 3]);
+    }
+    v.push(many_vals);
+    let mut many_nums = Packet::new();
+    for i in 0..300u16 {
+        many_nums.add_option(CoapOption::from(1 + i * 7), vec![i as u8]);
+    }
+    v.push(many_nums);
+    for len in [65535usize, 65536, 65549, 65535 + 269, 65535 + 270] {
+        let mut p = Packet::new();
+        p.set_token(r.bytes(8));
+        p.add_option(CoapOption::from(2000), r.bytes(len));
+        p.add_option(CoapOption::from(2000), vec![1]);
+        v.push(p);
+    }
+    let mut big_pay = Packet::new();
+    big_pay.header.code = 0x45.into();
+    big_pay.payload = r.bytes(70_000);
+    v.push(big_pay);
+    v
+}
+
 pub fn rec_wire_limit(args: &Args) {
     let seed = args.u("seed", 1);
     let thorough = args.thorough();
@@ -778,22 +829,7 @@ pub fn rec_wire_limit(args: &Args) {
     // large shapes: hundreds of values under one number, hundreds of numbers, the longest encodable value
     // (65535 + 269 bytes) and one byte more (refused), a payload above 64 KiB, the largest limits
     {
-        let mut many_vals = Packet::new();
-        for i in 0..300usize {
-            many_vals.add_option(CoapOption::UriQuery, vec![(i % 251) as u8; i % 3]);
-        }
-        let mut many_nums = Packet::new();
-        for i in 0..300u16 {
-            many_nums.add_option(CoapOption::from(1 + i * 7), vec![i as u8]);
-        }
-        let mut longest = Packet::new();
-        longest.add_option(CoapOption::from(2000), r.bytes(65535 + 269));
-        let mut too_long = Packet::new();
-        too_long.add_option(CoapOption::from(2000), r.bytes(65535 + 270));
-        let mut big_pay = Packet::new();
-        big_pay.header.code = 0x45.into();
-        big_pay.payload = r.bytes(70_000);
-        for p in [&many_vals, &many_nums, &longest, &too_long, &big_pay] {
+        for p in large_messages(&mut r).iter() {
             let wl = guarded(|| p.to_bytes_unlimited()).and_then(|x| x.ok()).map(|b| b.len()).unwrap_or(0);
             ev_to_bytes(&mut out, p, Some(None));
             ev_to_bytes(&mut out, p, None);
